@@ -208,6 +208,15 @@ func RunCase(es graphql.ExecutableSchema, c Case) Result {
 		}
 		res.Doc = DocToJSON(rc.Doc, rc.Operation)
 		res.Variables = rc.Variables
+		// the coerced variables are shared by every field of the operation (fields resolve concurrently): nothing
+		// may write to them while the operation executes
+		varsBefore, _ := json.Marshal(rc.Variables)
+		defer func() {
+			if varsAfter, _ := json.Marshal(rc.Variables); !bytes.Equal(varsBefore, varsAfter) && res.Crash == "" {
+				res.Crash = fmt.Sprintf("the operation's variables were written during execution: before %s, after %s",
+					truncate(string(varsBefore), 300), truncate(string(varsAfter), 300))
+			}
+		}()
 		isSub := rc.Operation != nil && rc.Operation.Operation == ast.Subscription
 		if isSub {
 			st.mu.Lock()
